@@ -108,7 +108,10 @@ def examine(case):
     p.bibs = list(case['bibs'])
     out = []
     for raw in case['calls']:
-        if p.call(hjsearch.dec(raw)) and p.c.state in ('finished', 'won', 'drawn'):
+        call = hjsearch.dec(raw)
+        if not p.call(call):
+            p.hist.append(call)        # a refused call is part of the history all the same (it must leave no trace)
+        elif p.c.state in ('finished', 'won', 'drawn'):
             m = M(p.bibs, p.first_jo if p.first_jo is not None and p.first_jo < len(p.c.heights) else None)
             out.extend(evaluate(p.c, m, p.hist, p.float_heights))
     return out
@@ -170,6 +173,38 @@ class ImplPlayer(object):
     def live(self):
         return [j.bib for j in self.c.jumpers if not getattr(j, 'eliminated', False)]
 
+    def poke(self, draw):
+        """A call the rules forbid whatever the jump-off semantics (a trial by an athlete who has retired, who has cleared
+        or passed the current height or has had three attempts at it; a late entry; a lower bar outside a jump-off): it
+        must be refused and leave no trace, so the placings judged later are those of the cards all the same.  Returns
+        False when the implementation ACCEPTED it (C02 reports that; the play is not judged any further)."""
+        nh = len(self.c.heights)
+        cands = []
+        for j in self.c.jumpers:
+            card = list(j.attempts_by_height)
+            cur = card[nh - 1] if nh and len(card) >= nh else ''
+            if 'r' in ''.join(card) or cur.endswith('o') or cur.endswith('-') or len(cur) >= 3:
+                cands.append(j.bib)
+            elif self.c.state == 'jumpoff' and getattr(j, 'eliminated', False):
+                # out of the jump-off (never part of it, or knocked out in an earlier round): which athletes to poke is
+                # only a choice of the generator - an accepted poke ends the play, it is never judged
+                cands.append(j.bib)
+        k = draw(8)
+        if k == 0 and nh:
+            call = ('add', 'Z')
+        elif k == 1 and nh and self.c.state != 'jumpoff' and self.last_h is not None:
+            call = ('bar', self.last_h - hjsearch.STEP)
+        elif cands:
+            call = (['cleared', 'failed', 'passed', 'retired'][draw(4)], cands[draw(len(cands))])
+        else:
+            return True
+        r = hjimpl.apply(self.c, call, self.float_heights)
+        self.hist.append(call)
+        if r[0] == 'ok':
+            self.alive = False
+            return False
+        return True
+
 
 class M(object):
     """What evaluate() needs from a 'model': the athletes' order and the first jump-off column."""
@@ -199,13 +234,25 @@ def check_decided(ctx, p):
                            if len(ctx.nt_keys) % 3000 == 4 else None)
 
 
-def play_cards(ctx, p, cells, order):
+def play_cards(ctx, p, cells, order, draw=None):
     for k in range(3):
         for b in order:
             cell = cells.get(b, '')
             if len(cell) > k:
+                if not maybe_poke(ctx, p, draw):
+                    return
                 if p.call((hjplay.OPS[cell[k]], b)):
                     check_decided(ctx, p)
+
+
+def maybe_poke(ctx, p, draw):
+    """One legal call in six is preceded by a forbidden one (an official tapping the wrong bib)."""
+    if draw is None or not p.alive or draw(6):
+        return p.alive
+    ctx.label('forbidden-call-tried-first')
+    if not p.poke(draw):
+        ctx.label('play-abandoned-forbidden-call-accepted')
+    return p.alive
 
 
 def finish_regular(ctx, p):
@@ -224,7 +271,7 @@ def finish_regular(ctx, p):
                     check_decided(ctx, p)
 
 
-def jumpoff(ctx, p, draw, max_heights=3):
+def jumpoff(ctx, p, draw, max_heights=3, poke=False):
     rounds = 0
     while p.c.state == 'jumpoff' and rounds < max_heights:
         rounds += 1
@@ -238,6 +285,8 @@ def jumpoff(ctx, p, draw, max_heights=3):
             live.reverse()
         for b in live:
             k = draw(20)
+            if poke and not maybe_poke(ctx, p, draw):
+                return
             if p.call(('cleared' if k < 9 else 'failed' if k < 18 else 'retired', b)):
                 check_decided(ctx, p)
             if p.c.state != 'jumpoff':
@@ -252,6 +301,9 @@ def random_play(ctx, draw):
     # do; 2.01 is not exactly representable): the placing is about the heights, not about their binary representation
     fh = draw(4) == 0
     p = ImplPlayer(n, fh)
+    pokes = draw(3) == 0          # one play in three has forbidden calls tried in between (they must leave no trace)
+    if pokes:
+        ctx.label('play-with-forbidden-calls')
     if fh:
         ctx.label('play-float-heights-1cm')
     bibs = BIBS[:n]
@@ -268,9 +320,11 @@ def random_play(ctx, draw):
         order = list(bibs)
         if draw(2):
             order.reverse()
-        play_cards(ctx, p, cells, order)
+        play_cards(ctx, p, cells, order, draw if pokes else None)
+        if not p.alive:
+            return p
     finish_regular(ctx, p)
-    jumpoff(ctx, p, draw)
+    jumpoff(ctx, p, draw, poke=pokes)
     return p
 
 
